@@ -260,7 +260,7 @@ func (e *Engine) Paths(fn *ssa.Function, ctx *Ctx, mode Mode) []*Alt {
 				}
 				alt0.Results = append(alt0.Results, e.Eval(r, st.ctx))
 			}
-			unrolled := unrollFiniteExits(alt0)
+			unrolled := e.resolveDynamicOK(unrollFiniteExits(alt0), 0)
 			for _, alt := range unrolled {
 				if len(unrolled) > 1 || alt != alt0 {
 					// an unrolled exit whose error result is a definite failure, or
@@ -688,6 +688,9 @@ func (e *Engine) phiCases(g *Graph, b int, v ssa.Value, states []state, from int
 // dominator order, considering only dominators at or below block `from`.
 func (e *Engine) collect(g *Graph, target int, states []state, from int) []state {
 	fn := g.Fn
+	if target < 0 || target >= len(g.Reach) || !g.Reach[target] {
+		return nil // the target cannot be reached under the current assumptions
+	}
 	doms := g.Dominators(target)
 	loopsDone := map[*Loop]bool{}
 	for _, d := range doms {
@@ -958,9 +961,42 @@ func (e *Engine) Walk(fn *ssa.Function, descendAtoms bool, visit func(in ssa.Ins
 				}
 			}
 		}
+		// function literals passed or stored as values may run — those created in
+		// a block that is reachable under the current assumptions
+		made := map[*ssa.Function]bool{}
+		for _, b := range fn.Blocks {
+			if !g.Reach[b.Index] {
+				continue
+			}
+			for i, in := range b.Instrs {
+				var ops []*ssa.Value
+				for _, op := range in.Operands(ops) {
+					if op == nil || *op == nil {
+						continue
+					}
+					switch x := (*op).(type) {
+					case *ssa.Function:
+						made[x] = true
+					case *ssa.MakeClosure:
+						if f, ok := x.Fn.(*ssa.Function); ok {
+							made[f] = true
+						}
+					}
+				}
+				if mc, ok := in.(*ssa.MakeClosure); ok {
+					if f, ok := mc.Fn.(*ssa.Function); ok {
+						made[f] = true
+					}
+				}
+				if g.CutAt[b.Index] == i {
+					break
+				}
+			}
+		}
 		for _, a := range fn.AnonFuncs {
-			// closures passed as values (e.g. to library functions) may run
-			walk(a, e.Enter(ctx, nil, a))
+			if made[a] {
+				walk(a, e.Enter(ctx, nil, a))
+			}
 		}
 	}
 	walk(fn, e.Root(fn))
@@ -1289,6 +1325,77 @@ func (e *Engine) loopImplication(g *Graph, l *Loop, bi int, iff *ssa.If, acceptO
 		}
 		gate := &Gate{Pred: e.mk("implies", "", nil, ante, cons), Pos: condPos(iff), Fn: fn, Ctx: st.ctx, Loop: l.ID, Dom: dom(st.ctx)}
 		out = append(out, state{append(append([]*Gate{}, st.gates...), gate), st.ctx})
+	}
+	return out
+}
+
+// resolveDynamicOK: a gate "f() == nil" on the error of a call through a
+// function value that has become a known function literal (a row of an
+// unrolled table of steps) is replaced by the success alternatives of that
+// literal, as for a static call.
+func (e *Engine) resolveDynamicOK(alts []*Alt, depth int) []*Alt {
+	if depth > 16 {
+		return alts
+	}
+	var out []*Alt
+	changed := false
+	for _, a := range alts {
+		gi, target, call := -1, (*ssa.Function)(nil), (*ssa.Call)(nil)
+		for i, g := range a.Gates {
+			if g.Loop != "" || g.Pred == nil || g.Ctx == nil {
+				continue
+			}
+			p := StripConv(g.Pred)
+			if p.Op != OpBin || p.Name != "==" || len(p.Args) != 2 {
+				continue
+			}
+			x := StripConv(p.Args[1])
+			if !StripConv(p.Args[0]).IsConst("nil") {
+				x = StripConv(p.Args[0])
+				if !StripConv(p.Args[1]).IsConst("nil") {
+					continue
+				}
+			}
+			if x.Op == OpRes && len(x.Args) == 1 {
+				x = StripConv(x.Args[0])
+			}
+			if x.Op != OpCall || !strings.HasPrefix(x.Name, "dynamic#") || len(x.Args) == 0 {
+				continue
+			}
+			fv := StripConv(x.Args[0])
+			c, isCall := x.Val.(*ssa.Call)
+			if (fv.Op != OpClosure && fv.Op != OpFunc) || !isCall {
+				continue
+			}
+			fn := e.funcByShort(fv.Name)
+			if fn == nil || !e.P.InRepo(fn) || fn.Blocks == nil {
+				continue
+			}
+			res := fn.Signature.Results()
+			if res.Len() == 0 || !isErrorType(res.At(res.Len()-1).Type()) {
+				continue
+			}
+			gi, target, call = i, fn, c
+			break
+		}
+		if gi < 0 {
+			out = append(out, a)
+			continue
+		}
+		changed = true
+		g := a.Gates[gi]
+		sub := e.Enter(g.Ctx, call, target)
+		for _, ca := range e.Paths(target, sub, ModeErr) {
+			na := &Alt{Ret: a.Ret, Ctx: a.Ctx, Results: a.Results}
+			na.Gates = append(na.Gates, a.Gates[:gi]...)
+			na.Gates = append(na.Gates, &Gate{Pred: e.mk("ok", shortFn(target), nil), Pos: call.Pos(), Fn: call.Parent(), Ctx: g.Ctx, Call: call})
+			na.Gates = append(na.Gates, ca.Gates...)
+			na.Gates = append(na.Gates, a.Gates[gi+1:]...)
+			out = append(out, na)
+		}
+	}
+	if changed {
+		return e.resolveDynamicOK(out, depth+1)
 	}
 	return out
 }
